@@ -170,26 +170,6 @@ def enum_none_guard(text):
             'def optEnumNone : List UInt8 := %s' % (m.group(1), _bytes(_cstr(m.group(1)))))
 
 
-# --- which of the C14 repairs of strtonum.h are present (the driver's stof/stod mirror follows them) ------
-SH = 'include/dmlc/strtonum.h'
-
-
-def stof_variant(text):
-    if 'inline float stof(' not in text or 'inline FloatType ParseFloat(' not in text:
-        raise cexpr.ParseError('stof / ParseFloat not found')
-    flags = [
-        ('stofErrnoLocal', 'const bool range_error = (errno == ERANGE);' in text,
-         'stof/stod judge only a range error raised by this conversion (C14-2)'),
-        ('scaleInfChecked', 'if (CheckRange && value == std::numeric_limits<FloatType>::infinity())' in text,
-         'ParseFloat reports ERANGE when scaling overflows to infinity (C14-1)'),
-        ('endBacksOff', 'bool has_digits = (p != digits_begin);' in text,
-         'end pointer backs off to the last complete number (C14-3)'),
-        ('nanParenLenient', 'const char *q = p + 1;' in text,
-         'unterminated `nan(` leaves the parenthesis unconsumed instead of CHECK-failing (C14-4)'),
-    ]
-    return '\n'.join('-- %s\ndef %s : Bool := %s' % (d, n, 'true' if v else 'false') for n, v, d in flags)
-
-
 ITEMS = [
     # `isspace(ch)` in FieldEntryBase::Set resolves to dmlc::isspace (strtonum.h), not to the libc function
     ('dmlcIsSpace', 'include/dmlc/strtonum.h', r'inline bool isspace\(char c\) \{', r'return ([^;]+);', [P('c')], 'Bool'),
@@ -202,5 +182,4 @@ ITEMS = [
     {'name': 'optEnumNone', 'file': PH, 'custom': enum_none_guard},
     {'name': 'noneProbe', 'file': OH, 'custom': none_probe},
     {'name': 'optBoolTable', 'file': OH, 'custom': optbool_table},
-    {'name': 'stofVariant', 'file': SH, 'custom': stof_variant},
 ]
